@@ -38,17 +38,8 @@ var leafForms = []string{"get", "arrow", "group", "block", "if", "match", "try"}
 // letxStmts are the statement kinds through which the composite expression crosses into the
 // static type: a local let, a global let (constant initialisers only: `none`, `[]`, literals of
 // them — every carried value is typed and must be admitted unchanged), and the neighbours of the
-// let that are switched off, see enableOptAnyFlow.
+// let, which are a tagged poisoned workload while KF-c12-optany-flow is open (c12.go).
 var letxStmts = []string{"let", "global", "assign", "arg", "ret"}
-
-// enableOptAnyFlow adds the neighbours of the annotated let — assignment to a typed variable, a call
-// argument, a function result — to the workload. It is OFF because the unchanged tree genuinely
-// fails there (FINDINGS.md §7): an expression of static type ?any is accepted wherever ?T is
-// expected and only an annotated let validates it at run time, so `x = ao.get("k")`,
-// `take(ao.get("k"))` and `fn mk(..) -> ?int { ao.get("k") }` admit Some("s") as a ?int (sig
-// `c12:(vm|tree):letx:admit-nonconforming:…`). Switch it on once that is fixed or listed as an open
-// finding.
-const enableOptAnyFlow = false
 
 type dynBuilder struct {
 	form  string
